@@ -409,6 +409,10 @@ func RunScript(c *ScriptCase) *ScriptOutcome {
 			case "event":
 				ev := toEvent(*b.Ev)
 				go func() { <-release; in.P.ConsumeEvent(ev); close(done) }()
+			case "clock":
+				// the clock moves while the other members are being delivered
+				adv := time.Duration(b.ClockS) * time.Second
+				go func() { <-release; in.Clock.Add(adv); close(done) }()
 			}
 		}
 		close(release)
@@ -469,9 +473,11 @@ func RunScript(c *ScriptCase) *ScriptOutcome {
 					fired = append(fired, o.Fired...)
 					ser = append(ser, Stim{Kind: "answer", Pick: pick, Ans: b.Ans})
 				} else {
-					o := mm.Event(*b.Ev)
-					exp = append(exp, o.Requests...)
-					fired = append(fired, o.Fired...)
+					if b.Ev != nil {
+						o := mm.Event(*b.Ev)
+						exp = append(exp, o.Requests...)
+						fired = append(fired, o.Fired...)
+					}
 					ser = append(ser, b)
 				}
 			}
